@@ -71,7 +71,7 @@ def lean_ty(t):
             return "(" + " → ".join([lean_ty(a) for a in t[1]] + [res]) + ")"
     return {"int": "Int", "bool": "Bool", "str": "Str", "bytes": "(List Nat)", "row": "Row", "frag": "Fragment", "gap": "Gap",
             "ovres": "OverlapResult", "scaffold": "Scaffold", "bytesio": "PyRt.BytesIO", "unit": "Unit", "sink_str": "Str",
-            "sink_bytes": "(List Nat)", "nat": "Nat", "trtable": "(Char → Char)", "fastainfo": "FastaInfo", "ovref": "Nat", "premise": "Premise", "store": "(List Res)", "scref": "Nat", "ffref": "Nat", "found": "Found", "namer": "PyRt.SrcNamer", "lref": "Nat", "junction": "Junction", "assembly": "Assembly", "path": "Str", "fh": "Str", "bref": "PyRt.BuiltRef", "bsref": "Nat"}[t]
+            "sink_bytes": "(List Nat)", "nat": "Nat", "trtable": "(Char → Char)", "fastainfo": "FastaInfo", "ovref": "Nat", "premise": "Premise", "store": "(List Res)", "scref": "Nat", "ffref": "Nat", "found": "Found", "namer": "PyRt.SrcNamer", "lref": "Nat", "junction": "Junction", "assembly": "Assembly", "path": "Str", "fh": "Str", "bref": "PyRt.BuiltRef", "bsref": "Nat", "keytok": "PyRt.KeyTok"}[t]
 
 
 # OBJECT TABLE: (type, python attribute) -> (result type, lean template, may raise)
@@ -132,7 +132,10 @@ LABEL_FIELD = {"tag": ("tag", O("str"), "{0}"), "haplotype": ("haplotype", O("st
                "rank": ("rank", O("int"), "(({0}).getD 0)"), "original_name": ("originalName", O("str"), "{0}"),
                "original_tags": ("originalTags", O(L("str")), "{0}")}
 # class constants: dotted path -> (lean term, type)   (extracted from the source by T1)
-CLASS_CONST = {"self.OTHER_KNOWN_TAGS": ("Gen.otherKnownTags", L("str"))}
+CLASS_CONST = {"self.OTHER_KNOWN_TAGS": ("Gen.otherKnownTags", L("str")),
+               "Assembly.NEMATODE_CHR_INT": ("Gen.nematodeChrInt", ("dict", "str", "int"))}
+# re.split(<literal pattern>, s): the model's tokeniser for exactly that pattern (T1 guard `natKeyRegex_expected`), as the flat list Python returns
+REGEX_SPLIT = {r"(IV|I{1,3}|\d+)": "(PyRt.natSplitList {0})"}
 # methods of `self` that are translated kernels of their own (defined EARLIER in the generated file): name -> (lean def, arg types, result type)
 SELF_KERNELS = {"get_set_haplotype": ("ScaffoldNamer_get_set_haplotype", ["str"], "str"),
                 "haplotig_name": ("ScaffoldNamer_haplotig_name", [], "str"), "unloc_name": ("ScaffoldNamer_unloc_name", [], "str"),
@@ -420,6 +423,8 @@ class Kernel:
             nm = self.fresh()
             binds.append((nm, f"(fs_mtime {pth})", "int"))
             return nm, "int"
+        if isinstance(e, ast.Attribute) and dotted(e) in CLASS_CONST:
+            return CLASS_CONST[dotted(e)]
         if isinstance(e, ast.Attribute):
             # self.<declared attribute parameter>
             path = dotted(e)
@@ -653,6 +658,14 @@ class Kernel:
                 lt, ltt = rt, rtt
             return "(" + " && ".join(parts) + ")", "bool"
         if isinstance(e, ast.BoolOp) and isinstance(e.op, ast.Or) and len(e.values) == 2:
+            a0, ta0 = self.expr(e.values[0], env, binds)
+            if ta0 == O("int"):
+                rhs, trhs = self.impure(e.values[1], env)
+                if trhs != "int":
+                    raise Unsupported("`x or y` operand types")
+                nm = self.fresh()
+                binds.append((nm, f"(match {a0} with | some v => if v ≠ 0 then .ok v else {rhs} | none => {rhs})", "int"))
+                return nm, "int"
             sub = []
             a, ta = self.expr(e.values[0], env, sub)
             b, tb = self.expr(e.values[1], env, sub)
@@ -703,6 +716,10 @@ class Kernel:
                 b, tb = "[]", ta
             if ta == "emptylist" and isinstance(tb, tuple) and tb[0] == "list":
                 a, ta = "[]", tb
+            if {ta, tb} == {"int", "str"}:
+                wrap = lambda t, ty: f"(PyRt.KeyTok.num {t})" if ty == "int" else f"(PyRt.KeyTok.txt {t})"
+                a, b = wrap(a, ta), wrap(b, tb)
+                ta = tb = "keytok"
             if ta == O(tb):
                 b, tb = f"(some {b})", ta
             elif tb == O(ta):
@@ -733,6 +750,20 @@ class Kernel:
                     raise Unsupported("f-string format")
             return "(" + " ++ ".join(parts or ['([] : Str)']) + ")", "str"
         if isinstance(e, ast.GeneratorExp) or isinstance(e, ast.ListComp):
+            g0 = e.generators[0] if len(e.generators) == 1 else None
+            if g0 is not None and isinstance(g0.target, ast.Tuple) and len(g0.target.elts) == 2 and all(isinstance(z, ast.Name) for z in g0.target.elts) \
+                    and isinstance(g0.iter, ast.Call) and isinstance(g0.iter.func, ast.Name) and g0.iter.func.id == "enumerate" and len(g0.iter.args) == 1 and not g0.ifs:
+                # (f(i, x) for i, x in enumerate(xs)): element by element, possibly raising
+                src, ts = self.expr(g0.iter.args[0], env, binds)
+                if not (isinstance(ts, tuple) and ts[0] == "list"):
+                    raise Unsupported("enumerate of a non-list")
+                i, x = g0.target.elts[0].id, g0.target.elts[1].id
+                env2 = dict(env)
+                env2[i], env2[x] = "int", ts[1]
+                it, tit = self.impure(e.elt, env2)
+                nm = self.fresh()
+                binds.append((nm, f"((PyRt.enumerate {src}).mapM (fun (({mg(i)}, {mg(x)}) : Int × {lean_ty(ts[1])}) => {it}))", L(tit)))
+                return nm, L(tit)
             if len(e.generators) != 1 or e.generators[0].is_async or not isinstance(e.generators[0].target, ast.Name):
                 raise Unsupported("comprehension shape")
             g = e.generators[0]
@@ -743,6 +774,16 @@ class Kernel:
             env2 = dict(env)
             env2[x] = ts[1]
             term = src
+            sub_try = []
+            try:
+                self.expr(e.elt, env2, sub_try)
+            except Unsupported:
+                sub_try = []
+            if sub_try and not g.ifs:
+                it, tit = self.impure(e.elt, env2)
+                nm = self.fresh()
+                binds.append((nm, f"(({src}).mapM (fun ({mg(x)} : {lean_ty(ts[1])}) => {it}))", L(tit)))
+                return nm, L(tit)
             for cond in g.ifs:
                 sub = []
                 c, tc = self.expr(cond, env2, sub)
@@ -819,6 +860,11 @@ class Kernel:
             nm = self.fresh("ip")
             binds.append((nm, f"(BuildAssembly_input_predecessor {self.coerce(a, ta, 'scaffold')} {self.coerce(b, tb, 'int')})", O(("tuple", ["row", L("row")]))))
             return nm, O(("tuple", ["row", L("row")]))
+        if dotted(f) == "re.split" and len(e.args) == 2 and not e.keywords and isinstance(e.args[0], ast.Constant) and e.args[0].value in REGEX_SPLIT:
+            t, ty = self.expr(e.args[1], env, binds)
+            if ty != "str":
+                raise Unsupported("re.split on a non-str")
+            return REGEX_SPLIT[e.args[0].value].format(t), L("str")
         if dotted(f) == "re.finditer" and len(e.args) == 2 and isinstance(e.args[0], ast.Constant) and e.args[0].value == b"[ACGTacgt]+":
             # the ACGT runs of a bytes value (the model's `acgtRuns`; the pattern text is guarded by T1)
             t, ty = self.expr(e.args[1], env, binds)
@@ -962,6 +1008,14 @@ class Kernel:
                 ty = self.spec["attr_params"][path]
                 self.param(path.replace(".", "_"), ty)
                 return path.replace(".", "_"), ty
+            if n == "int" and len(e.args) == 1:
+                t, ty = self.expr(e.args[0], env, binds)
+                if ty == "str":
+                    nm = self.fresh()
+                    binds.append((nm, f"(pyInt {t})", "int"))
+                    return nm, "int"
+                if ty == "int":
+                    return t, "int"
             if n == "abs" and len(e.args) == 1:
                 t, ty = self.expr(e.args[0], env, binds)
                 if ty == "int":
@@ -2652,6 +2706,11 @@ IMP_KERNELS_17 = [
          locals={"gap": O("row"), "hap_name_scaffold": ("dict", BKEY, "bsref")}),
 ]
 
+IMP_KERNELS_18 = [
+    dict(file="assembly/assembly.py", qual="Assembly.name_natural_key", lean="Assembly_name_natural_key", returns=L("keytok"),
+         attr_params={"obj.name": "str"}),
+]
+
 IMP_KERNELS = [
     dict(file="assembly/indexed_assembly.py", qual="IndexedAssembly.find_overlaps", lean="IndexedAssembly_find_overlaps",
          params={"bait": "frag"}, returns=O("ovres"), locals={"ovr": O("int")},
@@ -2711,7 +2770,7 @@ def main():
         return 0
     parts = ["/- GENERATED by harness/translate_imp.py from /repo/src — do not edit -/", "import AgpTpf.Model.PyRt", "import AgpTpf.Model.PyRtHeap", "import AgpTpf.Model.Lookup",
              "import AgpTpf.Model.Fasta", "import AgpTpf.Model.Text", "set_option linter.unusedVariables false", "namespace AgpTpf.Gen.Imp", "open AgpTpf", ""]
-    for spec in IMP_KERNELS + IMP_KERNELS_2 + IMP_KERNELS_3 + IMP_KERNELS_4 + IMP_KERNELS_5 + IMP_KERNELS_6 + IMP_KERNELS_7 + IMP_KERNELS_8 + IMP_KERNELS_9 + IMP_KERNELS_10 + IMP_KERNELS_11 + IMP_KERNELS_12 + IMP_KERNELS_13 + IMP_KERNELS_14 + IMP_KERNELS_15 + IMP_KERNELS_16 + IMP_KERNELS_17:
+    for spec in IMP_KERNELS + IMP_KERNELS_2 + IMP_KERNELS_3 + IMP_KERNELS_4 + IMP_KERNELS_5 + IMP_KERNELS_6 + IMP_KERNELS_7 + IMP_KERNELS_8 + IMP_KERNELS_9 + IMP_KERNELS_10 + IMP_KERNELS_11 + IMP_KERNELS_12 + IMP_KERNELS_13 + IMP_KERNELS_14 + IMP_KERNELS_15 + IMP_KERNELS_16 + IMP_KERNELS_17 + IMP_KERNELS_18:
         parts.append(translate(spec))
     parts.append("end AgpTpf.Gen.Imp\n")
     txt = "\n".join(parts)
